@@ -226,7 +226,7 @@ def _cache_ok(e, tag, viol):
         centred = x_before - x_before.mean(1)[:, None, :]
         if had_traces and moved > 1e-5:
             viol.append((tag + "/observer-modified-input", "rmsd(precentered=True) with cached traces moved the coordinates by %.3g" % moved))
-        elif np.abs(t.xyz - centred).max() > 1e-4:
+        elif not np.abs(t.xyz - centred).max() <= 1e-4:
             viol.append((tag + "/observer-modified-input", "md.rmsd changed the coordinates other than by centring them"))
         e.xyz = t.xyz.copy()
     return True
@@ -452,7 +452,7 @@ def run_case(case):
                 else:
                     c = before.mean(1)
                 exp = before - c[:, None, :]
-                if src.t.xyz.shape != exp.shape or np.abs(src.t.xyz - exp).max() > 1e-4:
+                if src.t.xyz.shape != exp.shape or not np.abs(src.t.xyz - exp).max() <= 1e-4:
                     viol.append((tag + "/value", "centred coordinates off by %.3g" % np.abs(src.t.xyz - exp).max()))
                 src.xyz = src.t.xyz.copy()
                 had_center = had_center or not flag
